@@ -43,6 +43,7 @@ type Outer struct {
 	MI map[string]Inner
 	MP map[string]*Inner
 	MK map[int]string
+	PA *any // pointer to an interface: a path may end here but must not continue below (F-C15i)
 }
 
 var _ = Inner{}.u
@@ -69,7 +70,7 @@ var anyType = reflect.TypeOf((*any)(nil)).Elem()
 var syms = []string{
 	"A", "B", "X", "Y", "Z", "L", "PL", "M", "ML", "u",
 	"I", "PI", "PP", "H", "N", "S", "MA", "MS", "MI", "MP", "MK",
-	"k", "j", "a", "b", "c", "nope",
+	"k", "j", "a", "b", "c", "nope", "PA",
 }
 var symIdx = func() map[string]int {
 	m := map[string]int{}
